@@ -274,7 +274,9 @@ class Resolver:
 
         matches = self.__find(node, name, remainder)
         if not matches and not Resolver.is_wildcard(name) and not self.relax:
-            raise ChildResolverError(node, name, self.pathattr)
+            # only a missing child is an error, not an existing child below which nothing matches
+            if not any(self.__match(_getattr(child, self.pathattr), name) for child in node.children):
+                raise ChildResolverError(node, name, self.pathattr)
         return matches
 
     def __find(self, node, pat, remainder):
